@@ -207,6 +207,8 @@ func c13(c *Check) {
 	}
 	sort.Slice(expFns, func(i, j int) bool { return funcName(expFns[i]) < funcName(expFns[j]) })
 	exportLoopsComplete(c, "C13/export-loops-complete", expFns)
+	c.Rule("C13/export-collectors-never-stop", "a collecting callback handed to an iteration helper by a function reachable from ExportGenesis never returns the value with which the helper ends its iteration", 3)
+	collectorsNeverStop(c, "C13/export-collectors-never-stop", expFns)
 	c.Rule("C13/rvesting-parameters-exported-as-stored", "the reward-vesting module exports exactly the parameters it reads from its store (no canonicalising constructor in between: sdk.NewCoins would drop zero amounts and re-sort)", 2)
 	c.Spec("C13/rvesting-parameters-exported-as-stored", Macros{}, FnSpec{Fn: "x/rvesting/keeper.Keeper.ExportGenesis",
 		Returns: []Ret{{Label: "genesis of the stored params", Index: 0, Want: []string{"rvesting/types.NewGenesisState(rvesting/keeper.(Keeper).GetParams($0, $1))"}}}})
@@ -471,8 +473,8 @@ func validationVsUpdates(c *Check, rule string) {
 	lc := "x/xibc/clients/light-clients/"
 	type allowed struct{ guard, needFn, needGuard, why string }
 	audited := map[string][]allowed{
-		"bsc": {{"reject (bsc/types.(Header).ValidateBasic($0.Header) != nil)", lc + "bsc/types.checkValidity", "reject (bsc/types.(Header).ValidateBasic($4) != nil)", "every header that becomes the head passed ValidateBasic in checkValidity"}},
-		"eth": {{"reject (eth/types.(Header).ValidateBasic($0.Header) != nil)", lc + "eth/types.checkValidity", "reject (eth/types.(Header).ValidateBasic($5) != nil)", "every header that becomes the head passed ValidateBasic in checkValidity"}},
+		"bsc":        {{"reject (bsc/types.(Header).ValidateBasic($0.Header) != nil)", lc + "bsc/types.checkValidity", "reject (bsc/types.(Header).ValidateBasic($4) != nil)", "every header that becomes the head passed ValidateBasic in checkValidity"}},
+		"eth":        {{"reject (eth/types.(Header).ValidateBasic($0.Header) != nil)", lc + "eth/types.checkValidity", "reject (eth/types.(Header).ValidateBasic($5) != nil)", "every header that becomes the head passed ValidateBasic in checkValidity"}},
 		"tendermint": {{"reject ($0.LatestHeight.RevisionHeight == 0)", "", "", "the latest height is only ever raised (C07 store: latest-height-only-raised)"}},
 	}
 	fieldRe := regexp.MustCompile(`\$0\.([A-Za-z_][A-Za-z0-9_]*)`)
